@@ -26,7 +26,9 @@ type Program struct {
 	LoadMS  int64
 	nested  map[types.Type]bool
 	arrayElems map[string]bool
-	nonNil     map[*ssa.Global]bool
+	elemTypes    map[string]types.Type // element types of every slice / array type of the loaded packages
+	namedStructs []*types.Named        // every (non-generic) named struct type of the loaded packages
+	nonNil    map[*ssa.Global]bool
 	nonNilDone map[*ssa.Package]bool
 }
 
